@@ -1753,14 +1753,25 @@ class ModuleInliner:
                     if isinstance(c.func, ast.Name) and self.imports.get("partial") != ("functools", "partial"):
                         continue
                     g = [d for d in self.new if d.kind == "module" and d.node.name == c.args[0].id]
-                    if len(g) != 1 or not self._eligible(g[0]) or g[0] is caller:
+                    if len(g) != 1 or g[0] is caller:
                         continue
                     g = g[0]
                     fn = g.node
+                    # `**options` of the helper is accepted when it is only ever passed on as `**options`: the partial's surplus keywords are written there
+                    kwname = fn.args.kwarg.arg if fn.args.kwarg else None
+                    if kwname is not None:
+                        uses = [n for n in ast.walk(fn) if isinstance(n, ast.Name) and n.id == kwname]
+                        stars = [k.value for n in ast.walk(fn) if isinstance(n, ast.Call) for k in n.keywords if k.arg is None and isinstance(k.value, ast.Name) and k.value.id == kwname]
+                        if len(uses) != len(stars) or fn.args.vararg or isinstance(fn, ast.AsyncFunctionDef) or fn.decorator_list \
+                                or any(isinstance(n, ast.Call) and isinstance(n.func, ast.Name) and n.func.id == fn.name for n in ast.walk(fn)):
+                            continue
+                    elif not self._eligible(g):
+                        continue
                     if any(k.arg is None for k in c.keywords) or any(isinstance(a, ast.Starred) for a in c.args):
                         continue
                     pos = [a.arg for a in fn.args.args]
                     bound: Dict[str, ast.expr] = {}
+                    extra_kw: List[ast.keyword] = []
                     okb = True
                     for pname, a in zip(pos, c.args[1:]):
                         bound[pname] = a
@@ -1768,11 +1779,35 @@ class ModuleInliner:
                         continue
                     allp = set(pos) | {a.arg for a in fn.args.kwonlyargs}
                     for k in c.keywords:
-                        if k.arg not in allp or k.arg in bound:
+                        if k.arg in bound:
                             okb = False
-                        bound[k.arg] = k.value
-                    if not okb or not all(isinstance(v, ast.Name) for v in bound.values()):
+                        elif k.arg not in allp:
+                            if kwname is None:
+                                okb = False
+                            extra_kw.append(k)
+                        else:
+                            bound[k.arg] = k.value
+                    if not okb:
                         continue
+                    # values that are not plain names are evaluated once, where the partial object is created: bound to a fresh local first
+                    pre_assign: List[ast.stmt] = []
+                    taken = _all_names(host)
+
+                    def as_name(label, v):
+                        if isinstance(v, ast.Name):
+                            return v
+                        self.counter += 1
+                        nm = f"_bound_{label}_{self.counter}"
+                        while nm in taken:
+                            self.counter += 1
+                            nm = f"_bound_{label}_{self.counter}"
+                        taken.add(nm)
+                        asg = ast.copy_location(ast.Assign(targets=[ast.copy_location(ast.Name(id=nm, ctx=ast.Store()), v)], value=v), st)
+                        ast.fix_missing_locations(asg)
+                        pre_assign.append(asg)
+                        return ast.copy_location(ast.Name(id=nm, ctx=ast.Load()), v)
+                    bound = {pn: as_name(pn, v) for pn, v in bound.items()}
+                    extra_kw = [ast.keyword(arg=k.arg, value=as_name(k.arg, k.value)) for k in extra_kw]
                     stored_in_g = _stored_names(fn)
                     if any(pn in stored_in_g for pn in bound):
                         continue
@@ -1808,11 +1843,23 @@ class ModuleInliner:
                         for n in ast.walk(nested):
                             if isinstance(n, ast.Name) and n.id in ren:
                                 n.id = ren[n.id]
+                    if kwname is not None:
+                        a.kwarg = None
+                        for n in ast.walk(nested):
+                            if isinstance(n, ast.Call):
+                                newk = []
+                                for k in n.keywords:
+                                    if k.arg is None and isinstance(k.value, ast.Name) and k.value.id == kwname:
+                                        newk.extend(copy.deepcopy(x) for x in extra_kw)
+                                    else:
+                                        newk.append(k)
+                                n.keywords = newk
                     ast.copy_location(nested, st)
                     for n in ast.walk(nested):
                         if "lineno" in getattr(n, "_attributes", ()):
                             n.lineno = n.end_lineno = st.lineno
-                    blk[blk.index(st)] = nested
+                    idx0 = blk.index(st)
+                    blk[idx0:idx0 + 1] = pre_assign + [nested]
                     self.log.append(f"{caller.qual}: {nested.name} = partial({fn.name}, ...) written out as the local closure it stands for")
                     self.expanded[id(g)] = self.expanded.get(id(g), 0) + 1
                     changed = True
